@@ -6,7 +6,7 @@ Same line protocol as the Lean driver m_c19 (lean/Drivers/C19.lean): one request
   reset                         forget all containers (the interpreter and the runtime's module state stay!)
   use i                         select container slot i (several containers live side by side in one process)
   new KIND lo hi base U O N     create a container in the current slot; KIND in ARRAY LIST BAG SET; lo int; hi int or
-                                `?` (indeterminate upper bound); base = 0|1|2 (INTEGER STRING REAL) or kind letters down to
+                                `?` (indeterminate upper bound); base = 0|1|2|3|4 (INTEGER STRING REAL(whole numbers) BOOLEAN(payload 0/1) LOGICAL(payload 0 = Unknown)) or kind letters down to
                                 a simple type: A0, LS2 (LIST OF SET OF REAL), ALS2 …; U,O = UNIQUE/OPTIONAL flags 0|1;
                                 N = 1: the base type is passed *by name* with scope= (exercises Type.get_type)
   set i t v | get i | add t v   item assignment, item read, BAG/SET add; value = type t (as for base), payload v;
@@ -30,14 +30,14 @@ REPO = os.environ.get("VERIF_REPO", "/repo")
 sys.path.insert(0, os.path.join(REPO, "src", "exp2python", "python"))
 sys.dont_write_bytecode = True
 
-from stepcode.SimpleDataTypes import INTEGER, STRING, REAL, LOGICAL, Unknown  # noqa: E402
+from stepcode.SimpleDataTypes import INTEGER, STRING, REAL, LOGICAL, BOOLEAN, Unknown  # noqa: E402
 from stepcode import AggregationDataTypes as A                               # noqa: E402
 from stepcode.BaseType import Aggregate as BaseTypeAggregate                 # noqa: E402
 
 from stepcode import Builtin                                                 # noqa: E402
 BUILTIN = ("SIZEOF", "HIINDEX", "LOINDEX", "HIBOUND", "LOBOUND", "VALUE_UNIQUE")
-BASES = [INTEGER, STRING, REAL]
-BASE_NAMES = ["INTEGER", "STRING", "REAL"]
+BASES = [INTEGER, STRING, REAL, BOOLEAN, LOGICAL]
+BASE_NAMES = ["INTEGER", "STRING", "REAL", "BOOLEAN", "LOGICAL"]
 SCOPE = sys.modules[__name__]
 
 
@@ -51,7 +51,7 @@ def parse_ty(t):
     if len(t) > 6:
         raise ValueError("type token")
     if len(t) == 1:
-        if t not in "012":
+        if t not in "01234":
             raise ValueError("type tag")
         return ("s", int(t))
     if t[0] in INNER:
@@ -87,7 +87,16 @@ def mk_val(t, v, declared=None):
         return INTEGER(v)
     if b == 1:
         return STRING("s%d" % v)
-    return REAL(v + 0.5)
+    if b == 2:
+        return REAL(v)                  # whole numbers: REAL(1.0) == INTEGER(1) == True in python
+    if b == 3:
+        return bool(v % 2)              # BOOLEAN = bool; payloads 0/1
+    # LOGICAL: payload 0 is the runtime's `Unknown`, every other payload its own LOGICAL object
+    if (t, v) not in OBJECTS:
+        o = Unknown if v == 0 else LOGICAL()
+        OBJECTS[(t, v)] = o
+        OBJECTS[id(o)] = (t, v)
+    return OBJECTS[(t, v)]
 
 
 def show_val(x):
@@ -96,12 +105,17 @@ def show_val(x):
     if isinstance(x, BaseTypeAggregate):
         tv = OBJECTS.get(id(x))
         return "val %s %d" % tv if tv else "val ? %r" % (x,)
+    if isinstance(x, bool):
+        return "val 3 %d" % int(x)
+    if isinstance(x, LOGICAL):
+        tv = OBJECTS.get(id(x))
+        return "val %s %d" % tv if tv else "val ? %r" % (x,)
     if isinstance(x, INTEGER):
         return "val 0 %d" % int(x)
     if isinstance(x, STRING) and x[:1] == "s":
         return "val 1 %s" % x[1:]
     if isinstance(x, REAL):
-        return "val 2 %d" % int(float(x) - 0.5)
+        return "val 2 %d" % int(float(x))
     return "val ? %r" % (x,)
 
 
